@@ -709,7 +709,10 @@ namespace ipr::impl {
       { }
 
       // -- impl::handler_block
-      handler_block::handler_block(const ipr::Region& r) : lexical_region{&r} { }
+      handler_block::handler_block(const ipr::Region& r) : lexical_region{&r}
+      {
+         lexical_region.owned_by = this;
+      }
 
       // -- impl::Handler
       Handler::Handler(const ipr::Region& r, const ipr::Name& n, const ipr::Type& t)
